@@ -119,13 +119,8 @@ impl<T: ?Sized> RwLock<T> {
                 .compare_exchange(0, 1, Ordering::SeqCst, Ordering::SeqCst)
             {
                 Ok(_) => Ok(()),
-                Err(_) => {
-                    if self.poison.get() {
-                        Err(TryLockError::Poisoned(PoisonError::new(())))
-                    } else {
-                        Err(TryLockError::WouldBlock)
-                    }
-                }
+                // a lost race means the lock is not ours, poisoned or not
+                Err(_) => Err(TryLockError::WouldBlock),
             }
         } else {
             Err(TryLockError::WouldBlock)
